@@ -79,6 +79,11 @@ type Item struct {
 	Self bool   `json:"self,omitempty"`
 	Sp   int    `json:"sp,omitempty"` // once: spelling of the directive, index into spellings
 	Ch   string `json:"ch,omitempty"` // once: "", "if", "else", "elseif", "tpl"
+	// once: the marked element also carries v-pre (the usual way to ship a <script> whose text
+	// contains {{ }} literally); leaf elements without v-for / chain membership only. v-pre on an
+	// ANCESTOR of a marked element is not generated: nothing below v-pre is processed, and the
+	// statement does not say what an unprocessed v-once means.
+	Pre  bool   `json:"pre,omitempty"`
 	N    int    `json:"n,omitempty"`
 	Cond bool   `json:"cond,omitempty"`
 	Eq   int    `json:"eq,omitempty"`
@@ -193,6 +198,10 @@ func isBox(tag string) bool { return tag == "div" || tag == "section" }
 // source text
 
 func onceBody(it Item) string {
+	if it.Pre {
+		// text that would be an error if it were interpolated
+		return fmt.Sprintf("var o%d = '{{ nosuch | nosuchfilter }}';", it.M)
+	}
 	switch it.Tag {
 	case "style":
 		return fmt.Sprintf(".o%d{}", it.M)
@@ -224,6 +233,13 @@ func src(items []Item, sb *strings.Builder) {
 			}
 			if it.Self {
 				attrs += fmt.Sprintf(` v-for="x in n%d"`, it.N)
+			}
+			if it.Pre {
+				if it.M%3 == 0 {
+					attrs = "v-pre " + attrs
+				} else {
+					attrs += " v-pre"
+				}
 			}
 			switch it.Ch {
 			case "if":
@@ -396,6 +412,9 @@ func validate(c Case) error {
 				}
 				if it.Self && (it.N < 0 || it.N > 3) {
 					return fmt.Errorf("bad n")
+				}
+				if it.Pre && (it.Self || it.Ch != "" || isBox(it.Tag)) {
+					return fmt.Errorf("o%d: bad v-pre", it.M)
 				}
 				switch it.Ch {
 				case "":
@@ -816,6 +835,9 @@ func where(c *Case, m int) string {
 		if it.Self {
 			s = fmt.Sprintf("<%s %s v-for=\"x in n%d\"> in %s", it.Tag, sp, it.N, file)
 		}
+		if it.Pre {
+			s = fmt.Sprintf("<%s %s v-pre> in %s", it.Tag, sp, file)
+		}
 		switch it.Ch {
 		case "if":
 			s = fmt.Sprintf("<%s %s v-if=\"%s\"> in %s", it.Tag, sp, condSrc(*it), file)
@@ -960,6 +982,15 @@ func classify(c Case) (bool, []string) {
 				}
 				if it.Self {
 					set[fmt.Sprintf("once+for-same-element n=%d", it.N)] = true
+				}
+				if it.Pre {
+					set["once+v-pre-same-element"] = true
+					if inLoop {
+						set["once+v-pre-same-element in loop"] = true
+					}
+					if strings.HasPrefix(kind, "component") {
+						set["once+v-pre-same-element in component"] = true
+					}
 				}
 				switch it.Ch {
 				case "if", "else", "elseif":
@@ -1174,6 +1205,7 @@ func classify(c Case) (bool, []string) {
 type uni struct {
 	fill  map[string]bool
 	sp    int // spelling of the first marked element; the following ones take the next spellings
+	pre   int // the pre-th filled slot (1-based) also carries v-pre when its tag is a leaf
 	next  int
 	kinds int
 }
@@ -1186,7 +1218,9 @@ func (u *uni) slot(name string, tags []string) []Item {
 		return nil
 	}
 	u.kinds++
-	return []Item{{K: "once", M: u.id(), Tag: tags[u.kinds%len(tags)], Sp: (u.sp + u.kinds - 1) % len(spellings)}}
+	it := Item{K: "once", M: u.id(), Tag: tags[u.kinds%len(tags)], Sp: (u.sp + u.kinds - 1) % len(spellings)}
+	it.Pre = u.kinds == u.pre && !isBox(it.Tag)
+	return []Item{it}
 }
 
 // slotCh is slot with the marked element as a chain member / under a template wrapper.
@@ -1194,6 +1228,7 @@ func (u *uni) slotCh(name string, tags []string, ch string, cond bool, eq int) [
 	its := u.slot(name, tags)
 	for i := range its {
 		its[i].Ch, its[i].Cond, its[i].Eq = ch, cond, eq
+		its[i].Pre = false
 	}
 	return its
 }
@@ -1209,6 +1244,7 @@ type uparams struct {
 	nA, nB, kA int
 	chain      string // none | l1 | l1-l2 | base
 	sp         int    // spelling of the first marked element (see uni.sp)
+	pre        int    // which filled slot also carries v-pre (see uni.pre)
 }
 
 func universeSlots(p uparams) []string {
@@ -1232,7 +1268,7 @@ func universeSlots(p uparams) []string {
 }
 
 func universe(fill []string, p uparams) Case {
-	u := &uni{fill: map[string]bool{}, sp: p.sp}
+	u := &uni{fill: map[string]bool{}, sp: p.sp, pre: p.pre}
 	for _, f := range fill {
 		u.fill[f] = true
 	}
@@ -1430,6 +1466,9 @@ func (g *gen) items(label string, comp, depth int, inLoop bool, max int) []Item 
 					it.Ch = "tpl"
 				}
 			}
+			if !it.Self && it.Ch == "" && !isBox(it.Tag) && rapid.IntRange(0, 4).Draw(g.t, l+"pre") == 0 {
+				it.Pre = true
+			}
 			out = append(out, it)
 		case "for":
 			it := Item{K: "for", M: g.id(), N: rapid.SampledFrom(loopLens).Draw(g.t, l+"n")}
@@ -1621,7 +1660,7 @@ func TestProp(t *testing.T) {
 	shard, shards := run.Shard()
 	// exhaustive: every choice of 1..k slots of the universe site x parameter sets x entry histories
 	params := []uparams{
-		{2, 2, 2, "none", 0}, {0, 1, 3, "l1", 1}, {3, 0, 1, "l1-l2", 2}, {1, 3, 2, "base", 3},
+		{2, 2, 2, "none", 0, 1}, {0, 1, 3, "l1", 1, 2}, {3, 0, 1, "l1-l2", 2, 1}, {1, 3, 2, "base", 3, 2},
 	}
 	maxFill := 2
 	if run.Thorough() {
@@ -1631,7 +1670,7 @@ func TestProp(t *testing.T) {
 		for i, ch := range []string{"none", "l1", "l1-l2", "base"} {
 			// two of the four loop/include settings per chain, so that each setting meets two chains
 			for _, n := range [][3]int{ns[i%4], ns[(i+1)%4]} {
-				params = append(params, uparams{n[0], n[1], n[2], ch, len(params) % len(spellings)})
+				params = append(params, uparams{n[0], n[1], n[2], ch, len(params) % len(spellings), 1 + len(params)%3})
 			}
 		}
 	}
